@@ -293,6 +293,9 @@ theorem substitute_exempt (X : List (Nat × PStr)) (T : Tbl) (e : RegEntry) (t s
   · rfl
   · simp [h]
 
+example : ∃ e ∈ BS.Gen.C09.htmlRegistry, e.fn = 2 ∧ ofS "script" ∈ e.cdata ∧ ofS "SCRIPT" ∉ e.cdata ∧
+    ofS "textarea" ∉ e.cdata := by decide
+
 /-- Any other parent makes no difference: the string is treated like a plain `str` (an attribute value), i.e. the
     formatter's function is applied. -/
 theorem substitute_not_exempt (X : List (Nat × PStr)) (T : Tbl) (e : RegEntry) (t s : PStr) (h : t ∉ e.cdata) :
